@@ -65,6 +65,7 @@ struct Machine {
     std::vector<std::string> log;
     int host_data_cb[3] = {0, 0, 0};
     int host_sem_cb = 0;
+    u64 log_dropped = 0;
     // tracked data window [lo, hi) in bank 0 data space
     u32 win_lo = 0, win_hi = 0;
 
@@ -84,7 +85,12 @@ struct Machine {
             log.push_back("sem");
         });
         teakra->SetAudioCallback([this](std::array<std::int16_t, 2> f) {
-            log.push_back(Fmt("audio(%d,%d)", f[0], f[1]));
+            // a runaway producer (a fast-forward without budget emits frames without end) must not take the machine's memory with it:
+            // beyond a million entries the log stops growing; the call that never returns is then reported by the pool supervisor
+            if (log.size() < 1000000)
+                log.push_back(Fmt("audio(%d,%d)", f[0], f[1]));
+            else
+                ++log_dropped;
         });
     }
     T::RegisterState& regs() {
